@@ -460,7 +460,7 @@ func init() {
 		}
 		return out
 	}
-	fw.Register(addTok(tokFramesC08, &fw.Prop{
+	register(addTok(tokFramesC08, &fw.Prop{
 		ID: "C08",
 		Rule: "(0) a parameter named like a global or a built-in seen from frames further in (match arms, nested callees), read and assigned; names first created in a case body are gone after the case, for 6 kinds of selecting pattern x 3 placements; arguments and results are values when passed / returned: lists read, effect, read of one scalar location as arguments, and calls returning a global next to calls changing it (the call and return programs of C09's copy-time family); (i) functions of arity 0-2 with every body of <= 3 statements over 10 statements (assign a parameter / a new name / an existing global, store through a container parameter, three returns, a call of a second function, bounded recursion, showing the parameters) called with every list of 0-3 arguments over {scalar, global array, array literal, unset variable, missing member, index past the end} from 4 expression positions; every name is shown afterwards (unset or value); " +
 			"(ii) explicit-state search over histories of 15 frame-exit transitions (normal end, return from loops / match blocks, match with expression / block body, match blocks left by continue / break / next, calls left by next, nested call+match+call, 300-deep recursion, no case selected, surplus / missing arguments) fired from 4 nesting contexts, all histories of length <= 2 (thorough 3): the state is the evaluator's frame stack after the history and the invariant is that it equals the initial one-frame stack, output compared with the model; " +
